@@ -31,6 +31,10 @@ def observe(arg):
                     used = set(s.split("*", 1)[0].replace(" ", ""))
                     ev["res"] = dict((c, mol_rec(fasta.CODE_TABLES[typ][c])) for c in used)
                     if t.get("prefix"):
+                        # the prefix route is asked twice; the caller changes the first answer in place in between
+                        first = P.formula("%s:%s" % (typ, s))
+                        first += P.formula("H[1]2O")
+                        first.density = 1.234
                         ev["prefix"] = bag(P.formula("%s:%s" % (typ, s)))
                 except Exception as e:
                     ev["exc"] = "%s: %s" % (type(e).__name__, str(e)[:100])
